@@ -5,6 +5,6 @@ func init() {
 		// self-test of the message builders (a failure is an infrastructure problem, not a violation)
 		{Run: "TestMessages", Kind: "test"},
 		// one check = one channel pair (RSA handshake) carrying 1-4 request/response exchanges plus a sentinel
-		{Run: "TestChunking", Quick: 640, Thorough: 24000, QShards: 16, TShards: 16},
+		{Run: "TestChunking", Quick: 640, Thorough: 10000, QShards: 16, TShards: 16},
 	}}
 }
